@@ -941,7 +941,7 @@ Lemma lc_plain : forall w x e, all_plain x = true -> eol e -> S (String.length x
 Proof.
   intros w x e Hx He Hw. unfold lc. rewrite clean_line_plain by auto.
   unfold line_class. rewrite expandtabs_plain by auto.
-  rewrite takeS_all by (rewrite slen_app; unfold lf; cbn [String.length]; lia).
+  rewrite (takeS_all (x ++ lf) w) by (rewrite slen_app; unfold lf; cbn [String.length]; lia).
   change BLANK_SPACE_CONTINUE with 5.
   unfold pk. f_equal.
   - rewrite all_space_app. change (all_space lf) with true. rewrite andb_true_r. apply all_space_plain; auto.
@@ -961,3 +961,593 @@ Qed.
 Lemma lc_same : forall w l l', expandtabs TABSIZE (clean_line l) = expandtabs TABSIZE (clean_line l') ->
   lc w l = lc w l'.
 Proof. intros w l l' H. unfold lc, line_class. rewrite H. reflexivity. Qed.
+
+(* ================================================================== H  layout steps on the data part *)
+(* the first word of the line is a lone c/C (followed by a blank or the end), or a c/C sits in column 6:
+   exactly the lines that rule S5 or MontePy's is_comment may take for a comment line, closed under
+   extending the line *)
+Fixpoint c_led_from (k : nat) (s : string) : bool :=
+  match s with
+  | EmptyString => false
+  | String c r => if is_blank c then c_led_from (S k) r
+                  else andb (isC c) (orb (Nat.eqb k 5) (endblank r))
+  end.
+Definition c_led (x : string) : bool := c_led_from 0 x.
+
+Lemma c_led_from_shape : forall n k a r, is_blank a = false ->
+  c_led_from k (blanks n (String a r)) = andb (isC a) (orb (Nat.eqb (k + n) 5) (endblank r)).
+Proof.
+  induction n; intros k a r Ha.
+  - simpl. rewrite Ha, Nat.add_0_r. reflexivity.
+  - simpl blanks. simpl c_led_from. rewrite IHn by auto. replace (S k + n) with (k + S n) by lia. reflexivity.
+Qed.
+
+Lemma c_led_from_blank : forall n k, c_led_from k (blanks n "") = false.
+Proof. induction n; intros k; auto. cbn [blanks]. simpl. auto. Qed.
+
+Lemma c_led_none : forall x, c_led x = false -> spec_comment x = false /\ late_c x = false.
+Proof.
+  intros x H. destruct (plain_shape x) as [[n E]|[n [a [r [E Ha]]]]]; subst x.
+  - unfold spec_comment, late_c. rewrite spec_comment_from_blank, late_c_from_blank. auto.
+  - unfold c_led in H. rewrite c_led_from_shape in H by auto.
+    unfold spec_comment, late_c. rewrite spec_comment_from_shape, late_c_from_shape by auto.
+    cbn [Nat.add] in *.
+    destruct (isC a); cbn [andb] in *; [|rewrite andb_false_r; auto].
+    apply orb_false_iff in H. destruct H as [H1 H2]. rewrite H1, H2.
+    destruct r as [|b r]; cbn [endblank hb] in *; try discriminate. rewrite H2.
+    rewrite !andb_false_r. auto.
+Qed.
+
+Lemma blanks_app_cons : forall n a r s, blanks n (String a r) ++ s = blanks n (String a (r ++ s)).
+Proof. intros. rewrite (blanks_app n (String a r)), sapp_assoc, <- blanks_app. reflexivity. Qed.
+
+Lemma c_led_app : forall a s, all_blank a = false -> c_led a = false -> c_led (a ++ s) = false.
+Proof.
+  intros x s Hb H. destruct (plain_shape x) as [[n E]|[n [a [r [E Ha]]]]]; subst x.
+  - rewrite all_blank_blanks in Hb. discriminate.
+  - unfold c_led in *. rewrite blanks_app_cons. rewrite c_led_from_shape in * by auto.
+    destruct (isC a); cbn [andb] in *; auto.
+    apply orb_false_iff in H. destruct H as [H1 H2]. rewrite H1.
+    destruct r as [|b r]; cbn [endblank] in *; try discriminate. exact H2.
+Qed.
+
+Lemma spec_comment_not_blank : forall x, spec_comment x = true -> all_blank x = false.
+Proof.
+  intros x H. destruct (plain_shape x) as [[n E]|[n [a [r [E Ha]]]]]; subst x.
+  - unfold spec_comment in H. rewrite spec_comment_from_blank in H. discriminate.
+  - rewrite all_blank_blanks. simpl. rewrite Ha. reflexivity.
+Qed.
+
+(* a data line: not blank, and not taken for a comment line *)
+Definition data_line (a : string) : Prop := all_blank a = false /\ c_led a = false.
+
+Lemma data_line_app : forall a s, data_line a -> data_line (a ++ s).
+Proof.
+  intros a s [H1 H2]. split.
+  - rewrite all_blank_app, H1. reflexivity.
+  - apply c_led_app; auto.
+Qed.
+
+Lemma pk_data_line : forall a, data_line a ->
+  k_blank (pk a) = false /\ k_com (pk a) = false /\
+  k_hash (pk a) = contains "#"%char (takeS 5 a) /\
+  k_words (pk a) = filter not_amp (words (spec_data a)).
+Proof.
+  intros a [H1 H2]. destruct (c_led_none a H2) as [H3 H4].
+  unfold pk. cbn [k_blank k_com k_hash k_words]. rewrite H1, H3, H4. cbn [orb negb].
+  rewrite andb_true_r. auto.
+Qed.
+
+Lemma pk_comment_line : forall c, spec_comment c = true ->
+  k_blank (pk c) = false /\ k_com (pk c) = true /\ k_hash (pk c) = false /\ k_words (pk c) = [].
+Proof.
+  intros c H. unfold pk. cbn [k_blank k_com k_hash k_words]. rewrite H.
+  rewrite (spec_comment_not_blank c H). cbn [orb negb]. rewrite andb_false_r. auto.
+Qed.
+
+(* ---- segments of classes that behave alike *)
+Ltac seg_crush :=
+  repeat match goal with
+         | |- context [match ?b with true => _ | false => _ end] => destruct b eqn:?; cbn [andb orb negb]
+         end; try reflexivity; try congruence.
+
+Lemma seg_amp : forall ka ka' kb kb',
+  k_blank ka = false -> k_com ka = false -> k_hash ka = false ->
+  k_blank ka' = false -> k_com ka' = false -> k_hash ka' = false ->
+  k_start ka' = k_start ka -> k_words ka' = k_words ka -> k_ampf ka' = true ->
+  k_blank kb = false -> k_com kb = false -> k_hash kb = false -> k_start kb = false ->
+  k_blank kb' = false -> k_com kb' = false -> k_hash kb' = false ->
+  k_words kb' = k_words kb -> k_ampf kb' = k_ampf kb ->
+  forall s, asteps true [ka; kb] s = asteps true [ka'; kb'] s.
+Proof.
+  intros ka ka' kb kb' A1 A2 A3 B1 B2 B3 B4 B5 B6 C1 C2 C3 C4 D1 D2 D3 D4 D5 [bc bt cont hnc ne acc].
+  unfold asteps, astep. cbn [a_bc a_bt a_cont a_hnc a_ne a_acc].
+  rewrite A1, A2, A3, B1, B2, B3, B4, B5, B6, C1, C2, C3, C4, D1, D2, D3, D4, D5.
+  cbn [andb orb negb]. rewrite !andb_false_r.
+  destruct (k_start ka), cont, hnc, ne; cbn [andb orb negb]; reflexivity.
+Qed.
+
+(* two lines of the same class except for what the current code's '&' test sees *)
+Definition same_fix (k k' : lk) : Prop :=
+  k_blank k' = k_blank k /\ k_com k' = k_com k /\ k_start k' = k_start k /\ k_hash k' = k_hash k /\
+  k_ampf k' = k_ampf k /\ k_words k' = k_words k.
+
+Lemma seg_same : forall k k', same_fix k k' -> forall s, asteps true [k] s = asteps true [k'] s.
+Proof.
+  intros k k' (H1 & H2 & H3 & H4 & H5 & H6) s.
+  unfold asteps, astep. rewrite H1, H2, H3, H4, H5, H6. reflexivity.
+Qed.
+
+Lemma seg_blank : forall k k', k_blank k = true -> k_blank k' = true ->
+  forall s, asteps true [k] s = asteps true [k'] s.
+Proof. intros k k' H1 H2 s. unfold asteps, astep. rewrite H1, H2. reflexivity. Qed.
+
+Definition comment_class (k : lk) : Prop :=
+  k_blank k = false /\ k_com k = true /\ k_hash k = false /\ k_words k = [].
+
+Lemma step_comment_noop : forall kc s, comment_class kc -> a_ne s = true ->
+  astep true kc s = ([], Some s).
+Proof.
+  intros kc [bc bt cont hnc ne acc] (H1 & H2 & H3 & H4) Hne. cbn [a_ne] in Hne. subst ne.
+  unfold astep. cbn [a_bc a_bt a_cont a_hnc a_ne a_acc]. rewrite H1, H2, H3, H4.
+  cbn [negb andb]. rewrite !andb_false_r. rewrite orb_false_r, app_nil_r. reflexivity.
+Qed.
+
+Lemma step_nonblank_ne : forall fx k s o s1, k_blank k = false -> astep fx k s = (o, Some s1) -> a_ne s1 = true.
+Proof.
+  intros fx k s o s1 Hb H. unfold astep in H. rewrite Hb in H.
+  destruct (k_hash k); inversion H. reflexivity.
+Qed.
+
+Lemma seg_comment_text : forall kc kc', comment_class kc -> comment_class kc' ->
+  forall s, asteps true [kc] s = asteps true [kc'] s.
+Proof.
+  intros kc kc' (H1 & H2 & H3 & H4) (G1 & G2 & G3 & G4) s.
+  unfold asteps, astep. rewrite H1, H2, H3, H4, G1, G2, G3, G4. cbn [negb andb]. rewrite !andb_false_r.
+  reflexivity.
+Qed.
+
+Lemma seg_comment_after : forall kx kc, k_blank kx = false -> comment_class kc ->
+  forall s, asteps true [kx; kc] s = asteps true [kx] s.
+Proof.
+  intros kx kc Hx Hc s. cbn [asteps].
+  destruct (astep true kx s) as [o [s1|]] eqn:E; auto.
+  rewrite step_comment_noop; auto.
+  eapply step_nonblank_ne; eauto.
+Qed.
+
+Lemma seg_comment_before : forall ky kc, k_blank ky = false -> comment_class kc ->
+  forall s, inv s -> asteps true [kc; ky] s = asteps true [ky] s.
+Proof.
+  intros ky kc Hy Hc s Hi. destruct (a_ne s) eqn:Hne.
+  - cbn [asteps]. rewrite step_comment_noop by auto. cbn [app].
+    destruct (astep true ky s) as [o [s1|]]; reflexivity.
+  - specialize (Hi Hne). destruct s as [bc bt cont hnc ne acc]. cbn [a_ne a_hnc] in *. subst ne hnc.
+    destruct Hc as (H1 & H2 & H3 & H4).
+    unfold asteps, astep. cbn [a_bc a_bt a_cont a_hnc a_ne a_acc].
+    rewrite H1, H2, H3, H4, Hy. cbn [negb andb orb]. rewrite !andb_false_r. cbn [app].
+    rewrite app_nil_r. destruct (k_hash ky); reflexivity.
+Qed.
+
+(* ---- facts about pk under the re-layouts *)
+Lemma rstrip_blanks_snoc : forall x c, is_blank c = false ->
+  rstrip_blanks (x ++ String c "") = x ++ String c "".
+Proof.
+  induction x; intros c Hc; simpl.
+  - rewrite Hc. reflexivity.
+  - rewrite all_blank_app. simpl. rewrite Hc. rewrite !andb_false_r. rewrite IHx by auto. reflexivity.
+Qed.
+
+Lemma rstrip_blanks_lead : forall n c t, is_blank c = false ->
+  rstrip_blanks (blanks n (String c t)) = blanks n (String c (rstrip_blanks t)).
+Proof.
+  induction n; intros c t Hc.
+  - simpl. rewrite Hc. reflexivity.
+  - cbn [blanks]. cbn [rstrip_blanks]. cbn [all_blank]. rewrite all_blank_blanks. cbn [all_blank].
+    rewrite Hc. cbn [andb]. rewrite andb_false_r. rewrite IHn by auto. reflexivity.
+Qed.
+
+Lemma spec_data_blanks : forall n s, spec_data (blanks n s) = blanks n (spec_data s).
+Proof. induction n; intros s; simpl; auto. rewrite IHn. reflexivity. Qed.
+
+Lemma filter_words_amp : forall a, contains "$"%char a = false ->
+  filter not_amp (words (spec_data (a ++ amp2))) = filter not_amp (words (spec_data a)).
+Proof.
+  intros a H. rewrite spec_data_app, H. change (spec_data amp2) with amp2.
+  rewrite (spec_data_no_dollar a H). unfold amp2. rewrite words_app_sp, filter_app.
+  change (filter not_amp (words "&")) with (@nil string). apply app_nil_r.
+Qed.
+
+Lemma pk_amp : forall a, data_line a -> contains "$"%char a = false -> contains "#"%char (takeS 5 a) = false ->
+  let k := pk a in let k' := pk (a ++ amp2) in
+  k_blank k = false /\ k_com k = false /\ k_hash k = false /\
+  k_blank k' = false /\ k_com k' = false /\ k_hash k' = false /\
+  k_start k' = k_start k /\ k_words k' = k_words k /\ k_ampf k' = true.
+Proof.
+  intros a Hd Hdol Hh.
+  destruct (pk_data_line a Hd) as (A1 & A2 & A3 & A4).
+  destruct (pk_data_line _ (data_line_app a amp2 Hd)) as (B1 & B2 & B3 & B4).
+  cbv zeta. rewrite A1, A2, A3, A4, B1, B2, B3, B4, Hh.
+  rewrite contains_takeS_app by reflexivity. rewrite Hh.
+  rewrite filter_words_amp by auto.
+  repeat split; auto.
+  - unfold pk. cbn [k_start]. destruct Hd as [Hb _]. rewrite all_blank_takeS_app by auto. reflexivity.
+  - unfold pk. cbn [k_ampf]. rewrite spec_data_app, Hdol. change (spec_data amp2) with amp2.
+    assert (a ++ amp2 = (a ++ String sp "") ++ String "&"%char "") as E by (rewrite sapp_assoc; reflexivity).
+    rewrite E, rstrip_blanks_snoc by reflexivity. rewrite <- E. apply ends_with_app.
+Qed.
+
+Definition head_ok (b : string) : bool :=
+  match b with
+  | EmptyString => false
+  | String c _ => andb (negb (is_blank c)) (negb (Ascii.eqb c "&"%char))
+  end.
+
+Lemma pk_cont : forall b n, head_ok b = true -> c_led (blanks n b) = false ->
+  let k := pk (blanks n b) in
+  k_blank k = false /\ k_com k = false /\
+  k_hash k = contains "#"%char (takeS 5 (blanks n b)) /\
+  k_start k = negb (all_blank (takeS 5 (blanks n b))) /\
+  k_words k = filter not_amp (words (spec_data b)) /\
+  k_ampf k = ends_with amp2 (rstrip_blanks (spec_data b)).
+Proof.
+  intros b n Hh Hc. destruct b as [|c t]; [discriminate|]. cbn [head_ok] in Hh.
+  apply andb_true_iff in Hh. destruct Hh as [H1 H2]. apply negb_true_iff in H1. apply negb_true_iff in H2.
+  assert (data_line (blanks n (String c t))) as Hd.
+  { split; auto. rewrite all_blank_blanks. simpl. rewrite H1. reflexivity. }
+  destruct (pk_data_line _ Hd) as (A1 & A2 & A3 & A4).
+  cbv zeta. rewrite A1, A2, A3, A4. repeat split; auto.
+  - rewrite spec_data_blanks, words_blanks. reflexivity.
+  - unfold pk. cbn [k_ampf]. rewrite spec_data_blanks. cbn [spec_data].
+    destruct (Ascii.eqb c "$") eqn:Ed.
+    + assert (rstrip_blanks (blanks n "") = "") as E.
+      { destruct n; auto. cbn [blanks rstrip_blanks]. cbn [all_blank]. rewrite all_blank_blanks. reflexivity. }
+      rewrite E. reflexivity.
+    + rewrite rstrip_blanks_lead by auto. cbn [rstrip_blanks all_blank]. rewrite H1. cbn [andb].
+      apply ends_with_blanks_body; auto.
+Qed.
+
+Lemma pk_dollar : forall a t, data_line a -> contains "$"%char a = false ->
+  contains "#"%char (takeS 5 a) = false -> contains "#"%char (takeS 5 (a ++ String "$"%char t)) = false ->
+  same_fix (pk a) (pk (a ++ String "$"%char t)).
+Proof.
+  intros a t Hd Hdol Hh Hh2.
+  destruct (pk_data_line a Hd) as (A1 & A2 & A3 & A4).
+  destruct (pk_data_line _ (data_line_app a (String "$"%char t) Hd)) as (B1 & B2 & B3 & B4).
+  unfold same_fix. rewrite A1, A2, A3, A4, B1, B2, B3, B4, Hh, Hh2.
+  assert (spec_data (a ++ String "$"%char t) = spec_data a) as Es.
+  { rewrite spec_data_app, Hdol. cbn [spec_data]. rewrite Ascii.eqb_refl, sapp_nil_r.
+    symmetry. apply spec_data_no_dollar; auto. }
+  repeat split; auto.
+  - unfold pk. cbn [k_start]. destruct Hd as [Hb _]. rewrite all_blank_takeS_app by auto. reflexivity.
+  - unfold pk. cbn [k_ampf]. rewrite Es. reflexivity.
+  - rewrite Es. reflexivity.
+Qed.
+
+Lemma pk_trail : forall a n, data_line a ->
+  same_fix (pk a) (pk (a ++ blanks n "")).
+Proof.
+  intros a n Hd.
+  destruct (pk_data_line a Hd) as (A1 & A2 & A3 & A4).
+  destruct (pk_data_line _ (data_line_app a (blanks n "") Hd)) as (B1 & B2 & B3 & B4).
+  unfold same_fix. rewrite A1, A2, A3, A4, B1, B2, B3, B4.
+  assert (contains "$"%char (blanks n "") = false) as Eb by (rewrite contains_blanks; reflexivity).
+  repeat split; auto.
+  - unfold pk. cbn [k_start]. destruct Hd as [Hb _]. rewrite all_blank_takeS_app by auto. reflexivity.
+  - apply contains_takeS_app. rewrite contains_blanks; reflexivity.
+  - unfold pk. cbn [k_ampf]. rewrite spec_data_app. destruct (contains "$" a) eqn:Ed; auto.
+    rewrite (spec_data_no_dollar _ Eb), (spec_data_no_dollar _ Ed). rewrite rstrip_blanks_app_blanks. reflexivity.
+  - rewrite spec_data_app. destruct (contains "$" a) eqn:Ed; auto.
+    rewrite (spec_data_no_dollar _ Eb), (spec_data_no_dollar _ Ed). rewrite words_app_blanks. reflexivity.
+Qed.
+
+(* ---- the relation *)
+Definition raw_blank (l : string) : bool := all_space (expandtabs TABSIZE (clean_line l)).
+
+Fixpoint all_printable (s : string) : bool :=
+  match s with
+  | EmptyString => true
+  | String a r => andb (printable a) (all_printable r)
+  end.
+
+(* one elementary re-layout of the data part of a file; the lines are the raw lines of the file
+   (body followed by LF or CR LF) *)
+Inductive data_step : list string -> list string -> Prop :=
+| DS_amp : forall pre post a b j k e1 e2,
+    (* continuation by >= 5 leading blanks  ->  trailing " &" and any indentation *)
+    all_plain a = true -> all_plain b = true -> eol e1 -> eol e2 ->
+    data_line a -> contains "$"%char a = false -> contains "#"%char (takeS 5 a) = false ->
+    5 <= k -> head_ok b = true ->
+    c_led (blanks j b) = false -> c_led (blanks k b) = false ->
+    contains "#"%char (takeS 5 (blanks j b)) = false ->
+    data_step (pre ++ [a ++ e1; blanks k b ++ e2] ++ post)
+              (pre ++ [a ++ amp2 ++ e1; blanks j b ++ e2] ++ post)
+| DS_comment_after : forall pre post x c e,
+    (* a C comment line after a non-blank line *)
+    all_plain c = true -> eol e -> spec_comment c = true -> raw_blank x = false ->
+    data_step (pre ++ [x] ++ post) (pre ++ [x; c ++ e] ++ post)
+| DS_comment_before : forall pre post y c e,
+    (* a C comment line before a non-blank line *)
+    all_plain c = true -> eol e -> spec_comment c = true -> raw_blank y = false ->
+    data_step (pre ++ [y] ++ post) (pre ++ [c ++ e; y] ++ post)
+| DS_comment_text : forall pre post c c' e e',
+    (* another text (or indentation within columns 1-5) of a C comment line *)
+    all_plain c = true -> all_plain c' = true -> eol e -> eol e' ->
+    spec_comment c = true -> spec_comment c' = true ->
+    data_step (pre ++ [c ++ e] ++ post) (pre ++ [c' ++ e'] ++ post)
+| DS_dollar : forall pre post a t e,
+    (* a '$' comment at the end of a data line *)
+    all_plain a = true -> all_plain t = true -> eol e ->
+    data_line a -> contains "$"%char a = false ->
+    contains "#"%char (takeS 5 a) = false -> contains "#"%char (takeS 5 (a ++ String "$"%char t)) = false ->
+    data_step (pre ++ [a ++ e] ++ post) (pre ++ [a ++ String "$"%char t ++ e] ++ post)
+| DS_trail : forall pre post a n e,
+    (* blanks at the end of a data line *)
+    all_plain a = true -> eol e -> data_line a ->
+    data_step (pre ++ [a ++ e] ++ post) (pre ++ [a ++ blanks n "" ++ e] ++ post)
+| DS_tab : forall pre post u v e,
+    (* a tab  ->  the blanks up to the next multiple of 8 columns *)
+    all_printable u = true -> all_printable v = true -> eol e ->
+    data_step (pre ++ [u ++ String tab v ++ e] ++ post) (pre ++ [u ++ blanks (tab_fill u) v ++ e] ++ post)
+| DS_eol : forall pre post x,
+    (* LF -> CR LF *)
+    no_eol x = true ->
+    data_step (pre ++ [x ++ lf] ++ post) (pre ++ [x ++ crlf] ++ post)
+| DS_blank : forall pre post x y,
+    (* what a blank line consists of *)
+    raw_blank x = true -> raw_blank y = true ->
+    data_step (pre ++ [x] ++ post) (pre ++ [y] ++ post).
+
+(* ---- soundness *)
+Definition lim (w : nat) (l : string) : bool :=
+  Nat.leb (String.length (expandtabs TABSIZE (clean_line l))) w.
+
+Lemma within_limit_forallb : forall w f, within_limit w f = forallb (lim w) f.
+Proof. reflexivity. Qed.
+
+Lemma lim_plain : forall w x e, all_plain x = true -> eol e -> lim w (x ++ e) = true -> S (String.length x) <= w.
+Proof.
+  intros w x e Hx He H. unfold lim in H. rewrite clean_line_plain, expandtabs_plain in H by auto.
+  apply Nat.leb_le in H. rewrite slen_app in H. unfold lf in H. cbn [String.length] in H. lia.
+Qed.
+
+Lemma within_mid : forall w pre p post, within_limit w (pre ++ p ++ post) = true -> forallb (lim w) p = true.
+Proof.
+  intros w pre p post H. rewrite within_limit_forallb, !forallb_app in H.
+  apply andb_true_iff in H. destruct H as [_ H]. apply andb_true_iff in H. tauto.
+Qed.
+
+Lemma raw_blank_class : forall w l, k_blank (lc w l) = raw_blank l.
+Proof. reflexivity. Qed.
+
+Lemma printable_facts : forall a, printable a = true ->
+  clean_byte a = a /\ Ascii.eqb a nl = false /\ Ascii.eqb a cr = false.
+Proof.
+  intros [[] [] [] [] [] [] [] []]; vm_compute; intro H; try discriminate H; repeat split; reflexivity.
+Qed.
+
+Lemma printable_clean : forall x, all_printable x = true -> smap clean_byte x = x /\ no_eol x = true.
+Proof.
+  induction x; simpl; intros H; auto.
+  apply andb_true_iff in H. destruct H as [Ha Hs].
+  destruct (printable_facts _ Ha) as (E1 & E2 & E3). destruct (IHx Hs) as [E4 E5].
+  rewrite E1, E2, E3, E4, E5. auto.
+Qed.
+
+Lemma all_printable_app : forall a b, all_printable (a ++ b) = andb (all_printable a) (all_printable b).
+Proof. induction a; simpl; intros; auto. rewrite IHa, andb_assoc. reflexivity. Qed.
+
+Lemma all_printable_blanks : forall n s, all_printable (blanks n s) = all_printable s.
+Proof. induction n; simpl; intros; auto. Qed.
+
+Lemma expand_printable : forall x e, all_printable x = true -> eol e ->
+  expandtabs TABSIZE (clean_line (x ++ e)) = spec_expand_from 0 x ++ lf.
+Proof.
+  intros x e Hx He. destruct (printable_clean x Hx) as [E1 E2].
+  rewrite clean_line_eol by auto. rewrite E1. unfold lf. apply expandtabs_is_S1; auto.
+Qed.
+
+Theorem data_step_sound : forall w d d', data_step d d' ->
+  within_limit w d = true -> within_limit w d' = true ->
+  forall s, inv s -> arun true (map (lc w) d) s = arun true (map (lc w) d') s.
+Proof.
+  intros w d d' Hstep Hl Hl' s Hi.
+  destruct Hstep; rewrite !map_app; apply seg_replace; auto; intros s1 Hi1; cbn [map];
+    apply within_mid in Hl; apply within_mid in Hl'; cbn [forallb] in Hl, Hl';
+    repeat match goal with H : andb _ _ = true |- _ => apply andb_true_iff in H; destruct H end.
+  - (* DS_amp *)
+    assert (all_plain (a ++ amp2) = true) as Hpa by (rewrite all_plain_app; rewrite H; reflexivity).
+    assert (all_plain (blanks k b) = true) as Hpk by (rewrite all_plain_blanks; auto).
+    assert (all_plain (blanks j b) = true) as Hpj by (rewrite all_plain_blanks; auto).
+    rewrite (lc_plain w a e1) by (auto; apply (lim_plain w a e1); auto). rewrite (lc_plain w (blanks k b) e2) by (auto; apply (lim_plain w (blanks k b) e2); auto).
+    rewrite <- (sapp_assoc a amp2 e1) in *.
+    rewrite (lc_plain w (a ++ amp2) e1) by (auto; apply (lim_plain w (a ++ amp2) e1); auto). rewrite (lc_plain w (blanks j b) e2) by (auto; apply (lim_plain w (blanks j b) e2); auto).
+    destruct (pk_amp a H3 H4 H5) as (A1 & A2 & A3 & B1 & B2 & B3 & B4 & B5 & B6).
+    destruct (pk_cont b k H7 H9) as (C1 & C2 & C3 & C4 & C5 & C6).
+    destruct (pk_cont b j H7 H8) as (D1 & D2 & D3 & D4 & D5 & D6).
+    apply seg_amp; auto.
+    + rewrite C3. rewrite takeS_blanks_ge by lia. reflexivity.
+    + rewrite C4. rewrite takeS_blanks_ge by lia. reflexivity.
+    + rewrite D3. auto.
+    + congruence.
+    + congruence.
+  - (* DS_comment_after *)
+    rewrite (lc_plain w c e) by (auto; apply (lim_plain w c e); auto).
+    symmetry. apply seg_comment_after.
+    + rewrite raw_blank_class. auto.
+    + apply pk_comment_line; auto.
+  - (* DS_comment_before *)
+    rewrite (lc_plain w c e) by (auto; apply (lim_plain w c e); auto).
+    symmetry. apply seg_comment_before; auto.
+    apply pk_comment_line; auto.
+  - (* DS_comment_text *)
+    rewrite (lc_plain w c e) by (auto; apply (lim_plain w c e); auto). rewrite (lc_plain w c' e') by (auto; apply (lim_plain w c' e'); auto).
+    apply seg_comment_text; apply pk_comment_line; auto.
+  - (* DS_dollar *)
+    assert (all_plain (a ++ String "$"%char t) = true) as Hp.
+    { rewrite all_plain_app. cbn [all_plain]. rewrite H, H0. reflexivity. }
+    change (a ++ String "$"%char t ++ e) with (a ++ (String "$"%char t) ++ e) in *.
+    rewrite <- (sapp_assoc a (String "$"%char t) e) in *.
+    rewrite (lc_plain w a e) by (auto; apply (lim_plain w a e); auto). rewrite (lc_plain w (a ++ String "$"%char t) e) by (auto; apply (lim_plain w (a ++ String "$"%char t) e); auto).
+    apply seg_same. apply pk_dollar; auto.
+  - (* DS_trail *)
+    assert (all_plain (a ++ blanks n "") = true) as Hp.
+    { rewrite all_plain_app, all_plain_blanks, H. reflexivity. }
+    rewrite <- (sapp_assoc a (blanks n "") e) in *.
+    rewrite (lc_plain w a e) by (auto; apply (lim_plain w a e); auto). rewrite (lc_plain w (a ++ blanks n "") e) by (auto; apply (lim_plain w (a ++ blanks n "") e); auto).
+    apply seg_same. apply pk_trail; auto.
+  - (* DS_tab *)
+    rewrite (lc_same w (u ++ String tab v ++ e) (u ++ blanks (tab_fill u) v ++ e)); auto.
+    change (u ++ String tab v ++ e) with (u ++ (String tab v) ++ e).
+    rewrite (blanks_app (tab_fill u) v). rewrite !(sapp_assoc (blanks (tab_fill u) "")).
+    rewrite <- !(sapp_assoc u). rewrite <- (sapp_assoc (u ++ blanks (tab_fill u) "")).
+    rewrite !expand_printable; auto.
+    + rewrite sapp_assoc, <- blanks_app. rewrite tab_is_blanks. reflexivity.
+    + rewrite !all_printable_app, all_printable_blanks. cbn [all_printable]. rewrite H, H0. reflexivity.
+    + rewrite all_printable_app. cbn [all_printable]. rewrite H, H0. reflexivity.
+  - (* DS_eol *)
+    rewrite (lc_same w (x ++ lf) (x ++ crlf)); auto. rewrite clean_line_crlf; auto.
+  - (* DS_blank *)
+    apply seg_blank; rewrite raw_blank_class; auto.
+Qed.
+
+(* ================================================================== I  front matter, whole files *)
+(* the lines before the data part: the title line, possibly after a message block;
+   the second component is the title MontePy reads *)
+Inductive front : list string -> option string -> Prop :=
+| F_title : forall t,
+    String.prefix "MESSAGE:" (upper (clean_line t)) = false ->
+    front [t] (Some (rstrip (clean_line t)))
+| F_message : forall m0 ms b t,
+    String.prefix "MESSAGE:" (upper (clean_line m0)) = true ->
+    Forall (fun l => all_space (clean_line l) = false) ms ->
+    all_space (clean_line b) = true ->
+    front (m0 :: ms ++ [b; t])%list (Some (rstrip (clean_line t))).
+
+Lemma message_loop_front : forall ms acc b t d,
+  Forall (fun l => all_space (clean_line l) = false) ms ->
+  all_space (clean_line b) = true ->
+  let fm := message_loop (map clean_line (ms ++ [b; t] ++ d)%list) acc in
+  f_title fm = Some (rstrip (clean_line t)) /\ f_rest fm = map clean_line d.
+Proof.
+  induction ms; intros acc b t d Hms Hb.
+  - simpl. rewrite Hb. auto.
+  - inversion Hms; subst. cbn [app map message_loop]. rewrite H1. apply IHms; auto.
+Qed.
+
+Lemma front_read : forall fr ti d, front fr ti ->
+  let fm := read_front_matters (map clean_line (fr ++ d)%list) in
+  f_title fm = ti /\ f_rest fm = map clean_line d.
+Proof.
+  intros fr ti d H. destruct H.
+  - cbn [app map read_front_matters]. rewrite H. auto.
+  - cbn [app map read_front_matters]. rewrite H. rewrite <- app_assoc.
+    apply message_loop_front; auto.
+Qed.
+
+Definition s0 : ast := mkA 0 0 false false false [].
+
+Lemma inv_s0 : inv s0.
+Proof. intro. reflexivity. Qed.
+
+Lemma read_lines_fix_run : forall w f,
+  read_lines_fix w f =
+  let fm := read_front_matters (map clean_line f) in
+  let r := arun true (map (line_class w) (f_rest fm)) s0 in (f_title fm, fst r, snd r).
+Proof.
+  intros w f. unfold read_lines_fix, read_data_fix_from. cbv zeta.
+  pose proof (rd_loop_fix_sim w (f_rest (read_front_matters (map clean_line f))) 0 0 0 false false []) as H.
+  cbn [nonempty flat_map] in H. fold s0 in H. rewrite <- H.
+  destruct (rd_loop_fix w _ 0 0 0 false false []) as [ins e]. reflexivity.
+Qed.
+
+Lemma read_lines_run : forall w f,
+  read_lines w f =
+  let fm := read_front_matters (map clean_line f) in
+  let r := arun false (map (line_class w) (f_rest fm)) s0 in (f_title fm, fst r, snd r).
+Proof.
+  intros w f. unfold read_lines, read_data_from. cbv zeta.
+  pose proof (rd_loop_sim w (f_rest (read_front_matters (map clean_line f))) 0 0 0 false false []) as H.
+  cbn [nonempty flat_map] in H. fold s0 in H. rewrite <- H.
+  destruct (rd_loop w _ 0 0 0 false false []) as [ins e]. reflexivity.
+Qed.
+
+Lemma read_lines_fix_front : forall w fr ti d, front fr ti ->
+  read_lines_fix w (fr ++ d)%list = (ti, fst (arun true (map (lc w) d) s0), snd (arun true (map (lc w) d) s0)).
+Proof.
+  intros w fr ti d H. rewrite read_lines_fix_run. cbv zeta.
+  destruct (front_read fr ti d H) as [E1 E2]. rewrite E1, E2, map_map. reflexivity.
+Qed.
+
+(* one elementary re-layout of a file *)
+Inductive layout_step : list string -> list string -> Prop :=
+| LS_data : forall fr ti d d',
+    front fr ti -> data_step d d' -> layout_step (fr ++ d)%list (fr ++ d')%list
+| LS_front : forall fr fr' ti d,
+    (* message block added, removed or changed; line ends and trailing blanks of the title line *)
+    front fr ti -> front fr' ti -> layout_step (fr ++ d)%list (fr' ++ d)%list.
+
+Lemma within_limit_app : forall w a b, within_limit w (a ++ b)%list = true -> within_limit w b = true.
+Proof.
+  intros w a b H. rewrite within_limit_forallb in *. rewrite forallb_app in H.
+  apply andb_true_iff in H. tauto.
+Qed.
+
+Theorem layout_step_sound : forall w f f', layout_step f f' ->
+  within_limit w f = true -> within_limit w f' = true ->
+  read_lines_fix w f = read_lines_fix w f'.
+Proof.
+  intros w f f' H Hl Hl'. destruct H.
+  - rewrite !(read_lines_fix_front w fr ti) by auto.
+    rewrite (data_step_sound w d d' H0); eauto using within_limit_app, inv_s0.
+  - rewrite (read_lines_fix_front w fr ti), (read_lines_fix_front w fr' ti) by auto. reflexivity.
+Qed.
+
+(* layouts reachable from each other by elementary re-layouts, every file on the way within the line limit *)
+Inductive layout_equiv (w : nat) : list string -> list string -> Prop :=
+| LE_refl : forall f, layout_equiv w f f
+| LE_step : forall f f', layout_step f f' -> within_limit w f = true -> within_limit w f' = true ->
+    layout_equiv w f f'
+| LE_sym : forall f f', layout_equiv w f f' -> layout_equiv w f' f
+| LE_trans : forall f g h, layout_equiv w f g -> layout_equiv w g h -> layout_equiv w f h.
+
+Theorem layout_equiv_sound : forall w f f', layout_equiv w f f' -> read_lines_fix w f = read_lines_fix w f'.
+Proof.
+  intros w f f' H. induction H; auto.
+  - apply layout_step_sound; auto.
+  - congruence.
+Qed.
+
+(* ================================================================== J  the current code *)
+Lemma tidy_agree : forall w ls cont bc bt hnc ne acc,
+  amp_tidy_from w cont ls = true ->
+  arun false (map (line_class w) ls) (mkA bc bt cont hnc ne acc)
+  = arun true (map (line_class w) ls) (mkA bc bt cont hnc ne acc).
+Proof.
+  induction ls; intros cont bc bt hnc ne acc H; auto.
+  cbn [amp_tidy_from] in H. cbn [map arun]. unfold astep, line_class.
+  cbn [k_blank k_com k_start k_hash k_ampc k_ampf k_words a_bc a_bt a_cont a_hnc a_ne a_acc].
+  destruct (all_space (expandtabs TABSIZE a)) eqn:Eb.
+  - apply andb_true_iff in H. destruct H as [Hc H]. apply negb_true_iff in Hc. subst cont.
+    rewrite (IHls false) by auto. reflexivity.
+  - destruct (andb (contains "#"%char (takeS BLANK_SPACE_CONTINUE (expandtabs TABSIZE a)))
+                   (negb (is_comment (expandtabs TABSIZE a)))) eqn:Eh; auto.
+    destruct (is_comment (expandtabs TABSIZE a)) eqn:Ec.
+    + apply andb_true_iff in H. destruct H as [Hc H]. apply andb_true_iff in H. destruct H as [Hn H].
+      apply negb_true_iff in Hc. apply negb_true_iff in Hn. subst cont. rewrite Hn.
+      rewrite (IHls false) by auto. reflexivity.
+    + apply andb_true_iff in H. destruct H as [He H]. apply eqb_prop in He. rewrite He.
+      rewrite (IHls _ _ _ _ _ _ H). reflexivity.
+Qed.
+
+Theorem tidy_reads_alike : forall w f, amp_tidy w f = true -> read_lines w f = read_lines_fix w f.
+Proof.
+  intros w f H. rewrite read_lines_run, read_lines_fix_run. cbv zeta.
+  unfold amp_tidy in H. unfold s0. rewrite tidy_agree by auto. reflexivity.
+Qed.
+
+Theorem layout_equiv_partial : forall w f f', layout_equiv w f f' ->
+  amp_tidy w f = true -> amp_tidy w f' = true -> read_lines w f = read_lines w f'.
+Proof.
+  intros w f f' H T T'. rewrite !tidy_reads_alike by auto. apply layout_equiv_sound; auto.
+Qed.
